@@ -567,6 +567,19 @@ func RunGetters(c *Ctx, pkgs []string) {
 					}
 				}
 			}
+			// append(recv.F, x...) writes x into the spare capacity of the receiver's own slice (and hands out an alias of it)
+			// whether or not the result is assigned back: a getter must copy first (slices.Clone, a fresh literal)
+			if call, ok := nd.(*ast.CallExpr); ok && len(call.Args) >= 2 {
+				if fid, ok := unparen(call.Fun).(*ast.Ident); ok && fid.Name == "append" {
+					if _, isB := info.Uses[fid].(*types.Builtin); isB {
+						if sel, ok := unparen(call.Args[0]).(*ast.SelectorExpr); ok {
+							if id, ok := unparen(sel.X).(*ast.Ident); ok && info.Uses[id] == recv {
+								bad = call
+							}
+						}
+					}
+				}
+			}
 			return true
 		})
 		c.R.Obl(Obligation{Rule: "E6.R-getter", Func: fi.Name, Construct: "no store through the receiver", Pos: c.P.Position(fi.Pos()), Discharged: bad == nil, Nontrivial: bad != nil, Ctl: fi.Ctl})
